@@ -97,5 +97,11 @@ PROPS['C18'] = dict(engine='faults', level='fault_enumeration', quick={}, thorou
                                  'lock.Middleware / confirm.Middleware document that they panic when the user cannot be loaded; in the harness chain they sit behind Middleware2, which has already loaded and cached the user, so that documented panic is not reachable and any panic is a violation',
                                  'the specification has no fault model: a faulted step is not compared for conformance, only against the fault clauses and the fault-tolerant general clauses'])
 
+PROPS['C16'] = dict(engine='ni', level='model_checking', foot=[], quick={}, thorough={},
+                    technique='non-interference as a TLA+ state invariant over the pure step function Apply (TLC, every reachable state of the lock/recover/otp/login families); on the code: forked paired replay (snapshot, request A, restore, request B) with byte-level comparison of everything the client observes',
+                    assumptions=['observation = status, all headers as sent, body bytes, the session and cookie change events delivered to the stores; RFC3339 stamps and the random nonce of a rotated remember cookie are canonicalised',
+                                 'states for the paired runs come from seeded random scenarios (form and JSON mode alternate, manual locks are injected to reach locked accounts); timing is out of scope',
+                                 'clause (c) is exercised only when the known account is not locked and the failed attempt would not lock it, as the property states'])
+
 import components
-COMPONENT = {'mwtable': components.mwtable, 'clientstate': components.clientstate, 'redirect': components.redirect, 'rules': components.rules, 'codecs': components.codecs, 'faults': components.faults}
+COMPONENT = {'mwtable': components.mwtable, 'clientstate': components.clientstate, 'redirect': components.redirect, 'rules': components.rules, 'codecs': components.codecs, 'faults': components.faults, 'ni': components.noninterference}
